@@ -17,7 +17,14 @@ run_extra(ctx):
       even/even, odd/odd (left-over Y-defect) and a few parity-mismatched ones that must raise) through the real
       _recovery == the model, and the direct rule: syndrome == XOR of the indicators of the indices paired by
       consecutive pairs per type (last one left over when odd) -> ctx.violation('smwpm-recovery-syndrome', ...);
-  (3) an in-kernel shard re-checks a sample of (1), (2) by vm_compute."""
+  (3) an in-kernel shard re-checks a sample of (1), (2), (4) by vm_compute;
+  (4) the rotated TORIC decoder (Decoders/SmwpmToric.v: smwpm_toric_recovery_syndrome_all, smwpm_toric_recovery_even_all,
+      all even rows, cols >= 2, all clusters of any integer indices): random clusters on 2x2 .. 6x6 (even, non-square
+      included; indices inside the lattice window and a share outside it - the path takes indices modulo the lattice)
+      through the real RotatedToricSMWPMDecoder._recovery_tparities(code, time_steps, clusters)[0] == the model (engine
+      command `trecovery`), and the direct rule: syndrome == XOR of the indicators (modulo the lattice) of the indices
+      paired by consecutive pairs per type -> ctx.violation('smwpm-toric-recovery-syndrome', ...); the two t-parities are
+      compared with an independent count of the pairs that wrap the time boundary ('smwpm-toric-tparity')."""
 import os
 
 import numpy as np
@@ -72,6 +79,119 @@ def _call(fn, *a):
         return 'ERR ValueError', None
     except Exception as ex:  # noqa
         return 'ERR Exception', type(ex).__name__
+
+
+TSIZES = [(r, c) for r in (2, 4, 6) for c in (2, 4, 6)]
+
+
+def _toric_pairs(cl):
+    """the rule, independently: per type, consecutive pairs; the last index is left over when the count is odd"""
+    out = []
+    for typ in (1, 0):
+        idxs = [i for i in cl if (i[1] - i[2]) % 2 == typ]
+        out.append([(idxs[k], idxs[k + 1]) for k in range(0, len(idxs) - 1, 2)])
+    return out  # [x pairs, z pairs]
+
+
+def _toric_expected(rows, cols, pos, m, clusters, time_steps):
+    v = np.zeros(m, dtype=int)
+    tp = [0, 0]
+    for cl in clusters:
+        for k, pairs in enumerate(_toric_pairs(cl)):
+            for a, b in pairs:
+                for (_, x, y) in (a, b):
+                    v[pos[(x % cols, y % rows)]] ^= 1
+                d = abs(a[0] % time_steps - b[0] % time_steps)
+                tp[k] ^= 1 if 2 * d > time_steps else 0
+    return v, tp
+
+
+def _toric_mismatch(cl):
+    nx = len([1 for i in cl if (i[1] - i[2]) % 2 == 1])
+    return nx % 2 != (len(cl) - nx) % 2
+
+
+def _toric_call(Dec, code, time_steps, clusters):
+    try:
+        op, xt, zt = Dec._recovery_tparities(code, time_steps, [list(cl) for cl in clusters])
+        return 'ok', np.asarray(op), [int(xt), int(zt)]
+    except Exception as ex:  # noqa
+        return 'ERR Exception', type(ex).__name__, None
+
+
+def _run_toric(ctx, req, cases, kern_t):
+    from qecsim import paulitools as pt
+    from qecsim.models.rotatedtoric import RotatedToricCode, RotatedToricSMWPMDecoder as Dec
+    rng = ctx.rng
+    for rows, cols in TSIZES:
+        code = RotatedToricCode(rows, cols)
+        S = code.stabilizers
+        m, n = S.shape[0], code.n_k_d[0]
+        real = [tuple(int(v) for v in i) for i in code._plaquette_indices]
+        pos = {i: k for k, i in enumerate(real)}
+        if len(pos) != rows * cols or m != rows * cols:
+            ctx.violation('smwpm-toric-index-set', 'the code does not have rows*cols distinct plaquette indices',
+                          {'kind': 'smwpm-toric-index-set', 'rows': rows, 'cols': cols})
+            continue
+        for trial in range(ctx.pick(16, 80)):
+            clusters = []
+            bad = trial % 8 == 7
+            wide = trial % 4 == 1
+            for _ in range(rng.randint(1, 4)):
+                while True:
+                    nx, nz = rng.randint(0, 8), rng.randint(0, 8)
+                    if (nx - nz) % 2 == 0 and 2 <= nx + nz <= 8 and (trial % 2 or nx % 2 == 0):
+                        break
+                lo_x, hi_x, lo_y, hi_y = (-cols, 2 * cols, -rows, 2 * rows) if wide else (0, cols - 1, 0, rows - 1)
+                cl = []
+                for want_x in [1] * nx + [0] * nz:
+                    while True:
+                        x, y = rng.randint(lo_x, hi_x), rng.randint(lo_y, hi_y)
+                        if (x - y) % 2 == want_x:
+                            break
+                    cl.append((rng.randint(0, 5), x, y))
+                if len(cl) > 2 and rng.random() < 0.5:  # a repeated plaquette at another time
+                    cl[rng.randrange(len(cl))] = (6,) + cl[rng.randrange(len(cl))][1:]
+                    if _toric_mismatch(cl):
+                        continue
+                rng.shuffle(cl)
+                clusters.append(cl)
+            if not clusters:
+                clusters = [[(0, 0, 0), (1, cols - 1, rows - 1)]]
+            if bad:
+                clusters[-1] = clusters[-1] + [(9, rng.randint(0, cols - 1), rng.randint(0, rows - 1))]
+            time_steps = rng.choice([1, 2, 3, 5, 6, 7])
+            st, rec, tps = _toric_call(Dec, code, time_steps, clusters)
+            line = 'trecovery %d %d %s' % (rows, cols, _cl_str(clusters))
+            cases.append(('trecovery', line, st if st != 'ok' else bitstr(rec), len(req)))
+            req.append(line)
+            odd = any(len([1 for i in cl if (i[1] - i[2]) % 2 == 1]) % 2 for cl in clusters)
+            ctx.count(key=('trecovery', rows, cols, trial), nontrivial=not bad,
+                      kind='toric-recovery:%s%s' % ('parity-mismatch' if bad else 'with-Y-defect' if odd else 'all-even',
+                                                   '/outside-window' if wide else ''),
+                      sample={'fn': 'RotatedToricSMWPMDecoder._recovery_tparities', 'size': [rows, cols], 'time_steps': time_steps,
+                              'clusters': [[list(i) for i in cl] for cl in clusters]})
+            rep = {'kind': 'smwpm-toric-recovery', 'rows': rows, 'cols': cols, 'time_steps': time_steps,
+                   'clusters': [[list(i) for i in cl] for cl in clusters]}
+            if bad:
+                if st == 'ok':
+                    ctx.violation('smwpm-toric-recovery-syndrome', 'a cluster with X/Z counts of different parity did not raise', rep)
+                continue
+            if st != 'ok':
+                ctx.violation('smwpm-toric-recovery-syndrome', '_recovery_tparities raised %s (%s)' % (st, rec), rep)
+                continue
+            want, want_tp = _toric_expected(rows, cols, pos, m, clusters, time_steps)
+            got = np.asarray(pt.bsp(rec, S.T)) if rec.shape == (2 * n,) else None
+            if got is None or not np.array_equal(got, want) or not np.array_equal(_bsp_independent(rec[None, :], S)[0], want):
+                ctx.violation('smwpm-toric-recovery-syndrome',
+                              'syndrome of the operator of _recovery_tparities(clusters) is not the XOR of the indicators (modulo '
+                              'the lattice) of the paired indices: got %s expected %s'
+                              % (bitstr(got) if got is not None else 'bad shape', bitstr(want)), rep)
+            if tps != want_tp:
+                ctx.violation('smwpm-toric-tparity', 't-parities of _recovery_tparities are %s, the pairs wrapping the time '
+                              'boundary give %s' % (tps, want_tp), rep)
+            if len(kern_t) < 6 and rng.random() < 0.1:
+                kern_t.append((rows, cols, clusters, rec))
 
 
 def run_extra(ctx):
@@ -182,10 +302,16 @@ def run_extra(ctx):
                               'expected %s' % (bitstr(got) if got is not None else 'bad shape', bitstr(want)), rep)
             if len(kern_r) < 6 and n <= 20 and rng.random() < 0.1:
                 kern_r.append((rows, cols, clusters, rec))
+    # ---- (4) rotated toric ----
+    kern_t = []
+    n_planar = len(cases)
+    _run_toric(ctx, req, cases, kern_t)
     out = ctx.model('smp', req)
     for kind, line, impl, i in cases:
-        ctx.cmp('RotatedPlanarSMWPMDecoder._%s' % ('path_operator' if kind == 'path' else 'recovery'), line, impl, out[i])
-    ctx.extra['smwpm_path_cases'] = len(cases)
+        ctx.cmp({'path': 'RotatedPlanarSMWPMDecoder._path_operator', 'recovery': 'RotatedPlanarSMWPMDecoder._recovery',
+                 'trecovery': 'RotatedToricSMWPMDecoder._recovery_tparities[0]'}[kind], line, impl, out[i])
+    ctx.extra['smwpm_path_cases'] = n_planar
+    ctx.extra['smwpm_toric_cases'] = len(cases) - n_planar
 
     # ---- (3) in-kernel shard ----
     if os.path.exists(os.path.join(COQ, 'theories', 'Decoders', 'SmwpmPath.vo')):
@@ -197,9 +323,17 @@ def run_extra(ctx):
             cl = coq_list([coq_list(['(%d, %d, %d)' % i for i in c]) for c in clusters])
             items.append('match smwpm_recovery %d %d %s with Some o => beqv o %s | None => false end'
                          % (rows, cols, cl, coq_bits(rec.tolist())))
+        toric_vo = os.path.exists(os.path.join(COQ, 'theories', 'Decoders', 'SmwpmToric.vo'))
+        if toric_vo:
+            for rows, cols, clusters, rec in kern_t:
+                cl = coq_list([coq_list(['(%d, %d, %d)' % i for i in c]) for c in clusters])
+                items.append('match smwpm_toric_recovery %d %d %s with Some o => beqv o %s | None => false end'
+                             % (rows, cols, cl, coq_bits(rec.tolist())))
+        else:
+            ctx.notes.append('Decoders/SmwpmToric.vo not built: in-kernel shard of the toric recovery correspondence skipped')
         if items:
             text = ('From Coq Require Import List Bool ZArith.\nFrom QV Require Import Core.Bits Decoders.SmwpmWalk '
-                    'Decoders.SmwpmPath.\nImport ListNotations.\nOpen Scope Z_scope.\n'
+                    'Decoders.SmwpmPath' + (' Decoders.SmwpmToric' if toric_vo else '') + '.\nImport ListNotations.\nOpen Scope Z_scope.\n'
                     'Definition checks : list bool :=\n [' + ';\n  '.join(items) + '].\n'
                     'Example corr : forallb (fun b => b) checks = true.\nProof. vm_compute. reflexivity. Qed.\n')
             ctx.kernel_cases('smwpm_path', text)
@@ -211,6 +345,8 @@ def run_extra(ctx):
 def replay(r):
     """re-evaluate one recorded failing input on the implementation; 1 = reproduced"""
     from qecsim import paulitools as pt
+    if r['kind'].startswith('smwpm-toric'):
+        return _replay_toric(r)
     from qecsim.models.rotatedplanar import RotatedPlanarCode, RotatedPlanarSMWPMDecoder as Dec
     code = RotatedPlanarCode(r['rows'], r['cols'])
     S = code.stabilizers
@@ -241,5 +377,30 @@ def replay(r):
     else:
         nodes = _nodes(code, Dec)
         bad = any(not (code.is_in_plaquette_bounds(i) or code.is_virtual_plaquette(i)) for i in nodes) or not set(real) <= set(nodes)
+    print('REPRODUCED' if bad else 'not reproduced')
+    return 1 if bad else 0
+
+
+def _replay_toric(r):
+    from qecsim import paulitools as pt
+    from qecsim.models.rotatedtoric import RotatedToricCode, RotatedToricSMWPMDecoder as Dec
+    rows, cols = r['rows'], r['cols']
+    code = RotatedToricCode(rows, cols)
+    S = code.stabilizers
+    real = [tuple(int(v) for v in i) for i in code._plaquette_indices]
+    pos = {i: k for k, i in enumerate(real)}
+    m = S.shape[0]
+    if r['kind'] == 'smwpm-toric-index-set':
+        bad = len(pos) != rows * cols or m != rows * cols
+    else:
+        clusters = [[tuple(i) for i in cl] for cl in r['clusters']]
+        st, rec, tps = _toric_call(Dec, code, r['time_steps'], clusters)
+        if any(_toric_mismatch(cl) for cl in clusters):
+            bad = st == 'ok'
+        else:
+            want, want_tp = _toric_expected(rows, cols, pos, m, clusters, r['time_steps'])
+            bad = st != 'ok' or not np.array_equal(pt.bsp(rec, S.T), want) or tps != want_tp
+            print('syndrome now:', bitstr(pt.bsp(rec, S.T)) if st == 'ok' else st, 'expected:', bitstr(want),
+                  't-parities now:', tps, 'expected:', want_tp)
     print('REPRODUCED' if bad else 'not reproduced')
     return 1 if bad else 0
